@@ -1,4 +1,64 @@
-"""C16 — not built yet."""
+"""C16 — trimming keeps exactly what kept services need; meaning is unchanged (DESIGN.md §5.16)."""
+import json, os
+from vlib import core
+
+THEOREMS = ["Props.C16." + t for t in [
+    "fuel_suffices", "mark_sound", "mark_exact", "always_kept", "kept_bodies_unchanged",
+    "kept_refs_kept", "method_filter", "services_nofilter", "trim_idempotent_marks",
+    "trim_resolves_partial", "base_service_dropped"]]
+
+PARTIAL = [
+    "trim_resolves: proved for type references and cross-file base services (trim_resolves_partial); false for a base service declared in the same included file as its heir — Props.C16.base_service_dropped is the machine-checked counterexample, replayed on TrimAST by the oracle class trim-error",
+    "trim_idempotent: proved as sweep-stability of the mark set (trim_idempotent_marks: a second traversal with the same marks deletes nothing more); full trim∘trim=trim is false with -m (oracle class not-idempotent) and is not proved without -m",
+    "method_filter: characterises marked functions of services visited by markService/traceExtendMethod; the regexp engine is the parameter Cfg.rx",
+]
+
+
 def run(ctx):
-    print("C16: no check built yet")
-    return 2
+    exe = ctx.go_build("c16")
+    ctx.trusted += ["correspondence harness harness/cmd/c16 (generator of multi-file programs, description->VL, AST->VL cross-check, canonical rendering) vs tv_c16",
+                    "implementation-only oracle in harness/cmd/c16: Reach over the description, re-parse of the dumped result, second trim"]
+    ctx.assumptions += ["regexp2.MatchString is the parameter Cfg.rx (the harness sends the match table of every pattern against every <service>.<function>)",
+                        "names are unique per file and kind (CheckGlobals/CheckFunctions/RegisterNames run before TrimAST at every call site)",
+                        "Reference.Index values are in range (set by ResolveSymbols from a loop index)",
+                        "no cyclic `extends` (the Go code does not terminate on them with -m); include graph acyclic (CircleDetect)",
+                        "MatchGoName and PreservedFiles are not exercised (nil/empty)"]
+    ctx.partial += PARTIAL
+    if exe and ctx.replay:
+        rc, out = core.sh([exe, "replay", "-repo", core.REPO, "-file", ctx.replay])
+        if rc != 0:
+            raise core.MachineryError("c16 replay failed: " + out[-2000:])
+        fails = json.loads(out.strip().split("\n")[-1])
+        for f in fails:
+            ctx.add_violation(f["key"], f["what"], f["input"], f["expected"], f["observed"])
+        ctx.cov["evaluations"] = 1
+        return ctx.finish(rule="replay of one (program, configuration)")
+    # nothing is regenerated for C16: the tie is the correspondence below
+    built = ctx.lake_build(["ThriftVerif.Props.C16"], "lake-build:Props.C16")
+    drv = ctx.lake_build(["tv_c16"], "lake-build:tv_c16")
+    if built:
+        ctx.audit("C16", THEOREMS)
+        if ctx.tier == "thorough":
+            ctx.leanchecker(["ThriftVerif.Props.C16"])
+    if exe:
+        cmd = [exe, "run", "-repo", core.REPO, "-dir", ctx.work, "-seed", str(ctx.seed), "-tier", ctx.tier]
+        try:
+            trimmer = ctx.go_build_repo("./tool/trimmer", "trimmer-bin")
+            thriftgo = ctx.go_build_repo(".", "thriftgo-bin")
+            cmd += ["-trimmer", trimmer, "-thriftgo", thriftgo]
+        except core.MachineryError as e:
+            ctx.obligation("build:trimmer+thriftgo", False, str(e)[-1500:])
+        rc, out = core.sh(cmd, timeout=3000)
+        if rc != 0:
+            raise core.MachineryError("c16 run failed: " + out[-2000:])
+        st = json.load(open(os.path.join(ctx.work, "stats.json")))
+        ctx.cov.update(evaluations=st["evaluations"], distinct_nontrivial=st["distinct_nontrivial"], samples=st["samples"],
+                       distribution=st["distribution"], exhaustive=False)
+        for f in (st.get("oracle_failures") or []):
+            ctx.add_violation(f["key"], f["what"], f["input"], f["expected"], f["observed"])
+        if drv:
+            model = ctx.run_model("tv_c16", os.path.join(ctx.work, "ops.txt"))
+            ctx.diff_lines("c16", os.path.join(ctx.work, "ops.txt"), os.path.join(ctx.work, "impl.txt"), model)
+    return ctx.finish(rule="seeded multi-file programs (1-6 files, include DAG with diamonds, equal names across files, references through "
+                           "typedefs/containers/includes/base services) x 4 configurations each (plain, preserve=false, -m, preserved list/mixed); "
+                           "a case is non-trivial when the program has more than one file or at least one service function; distinct by sha256 of the VL line")
